@@ -355,7 +355,7 @@ func zzFindKey(d *Dict, id int) (Value, bool) {
 //
 //verif:unwind 200
 func zzH12_derived_small() {
-	P := zzParam("pool", 3, 4)
+	P := zzParam("pool", 3, 3)
 	maxX := zzParam("maxX", 2, 3)
 	maxY := zzParam("maxY", 2, 3)
 	pool := make([]Value, P)
